@@ -386,6 +386,28 @@ class Ev:
 
     # ---- expressions --------------------------------------------------------
     def ev(self, e: ast.expr, env: dict, module: Module):
+        v = self._ev(e, env, module)
+        nar = env.get("__narrow__")
+        if nar and isinstance(v, Sym) and v.name in nar and not (isinstance(v.typ, ClassInfo) and v.typ is nar[v.name]):
+            return Sym(v.name, nar[v.name])
+        return v
+
+    def narrowing(self, test: ast.expr, env: dict, module: Module) -> dict:
+        """{symbol name: ClassInfo} established on the true branch of `isinstance(x, C)` (possibly the head of an `and`)."""
+        out = {}
+        parts = test.values if isinstance(test, ast.BoolOp) and isinstance(test.op, ast.And) else [test]
+        for p in parts:
+            if isinstance(p, ast.Call) and dotted(p.func) == "isinstance" and len(p.args) == 2:
+                try:
+                    v = self.ev(p.args[0], env, module)
+                except Unsupported:
+                    continue
+                ci = self.repo.resolve_class(module, p.args[1])
+                if isinstance(v, Sym) and ci is not None:
+                    out[v.name] = ci
+        return out
+
+    def _ev(self, e: ast.expr, env: dict, module: Module):
         if isinstance(e, ast.Constant):
             return self.lift(e.value)
         if isinstance(e, ast.Name):
@@ -844,6 +866,9 @@ class Ev:
             if isinstance(s, ast.If):
                 c = self.cond(self.ev(s.test, env, module))
                 e1, e2 = dict(env), dict(env)
+                nar = self.narrowing(s.test, env, module)
+                if nar:
+                    e1["__narrow__"] = {**env.get("__narrow__", {}), **nar}
                 o1 = self.run(s.body, e1, module, c_and(pc, c)) if c != FALSE else {"returns": [], "fall": FALSE, "env": e1}
                 o2 = self.run(s.orelse, e2, module, c_and(pc, c_not(c))) if c != TRUE else {"returns": [], "fall": FALSE, "env": e2}
                 returns += o1["returns"] + o2["returns"]
@@ -851,15 +876,19 @@ class Ev:
                 if o1["fall"] == FALSE and o2["fall"] == FALSE:
                     pc = FALSE
                     break
+                outer_narrow = env.get("__narrow__")
                 if o1["fall"] == FALSE:
                     env.clear(); env.update(o2["env"]); pc = o2["fall"]
                 elif o2["fall"] == FALSE:
                     env.clear(); env.update(o1["env"]); pc = o1["fall"]
+                    env.pop("__narrow__", None)
+                    if outer_narrow:
+                        env["__narrow__"] = outer_narrow
                 else:
                     merged = {}
                     for k in set(o1["env"]) | set(o2["env"]):
                         a, b = o1["env"].get(k), o2["env"].get(k)
-                        if a is None or b is None:
+                        if a is None or b is None or k == "__narrow__":
                             continue
                         merged[k] = a if _same(a, b) else self.merge([(c, a), (TRUE, b)])
                     env.clear(); env.update(merged)
